@@ -52,7 +52,7 @@ var bodySizes = []int{0, 0, 1, 2, 100, 1000, 4096, 4097, 65536, 70000, 300000}
 func kvTok(h hdr) string { return Hx(h.k) + "=" + Hx(h.v) }
 
 func genReq(r *rand.Rand, tier string, w *bufio.Writer) {
-	path := Pick(r, []string{"local", "fwd"})
+	path := Pick(r, []string{"local", "fwd", "local", "fwd", "agent"})
 	method := Pick(r, methods)
 	target := Pick(r, targets)
 	host := Pick(r, hosts)
@@ -64,7 +64,7 @@ func genReq(r *rand.Rand, tier string, w *bufio.Writer) {
 	n := r.Intn(9)
 	for i := 0; i < n; i++ {
 		h := Pick(r, reqHeaders)
-		if h.k == "x-piko-forward" && path == "fwd" {
+		if h.k == "x-piko-forward" && path != "local" {
 			continue // a client-supplied marker forbids the first node to forward: other property (C06)
 		}
 		if strings.EqualFold(h.k, "user-agent") && hasName(hs, "user-agent") {
@@ -103,13 +103,6 @@ func genReq(r *rand.Rand, tier string, w *bufio.Writer) {
 	if method == "HEAD" {
 		rmode = "cl"
 	}
-	if status == 404 && (rlen == 0 || method == "HEAD") {
-		// finding notfound-content-type-rewritten (F10): an upstream 404 that makes the proxy write
-		// no body byte is rewritten by gin's NoRoute default - always when the length is known
-		// (pinned by corpus/http/findings.ops), and depending on a timer race inside
-		// httputil.ReverseProxy (initial flush vs. end of copy) when it is streamed.  Not generated.
-		status = 410
-	}
 	var rhs []hdr
 	m := r.Intn(6)
 	for i := 0; i < m; i++ {
@@ -132,6 +125,8 @@ func genReq(r *rand.Rand, tier string, w *bufio.Writer) {
 
 var failLocal = []string{"noendpoint", "noupstream", "dialerr", "closebefore", "closemid-cl", "closemid-chunked", "slow", "slow-upgrade", "slow-upgrade-case", "fast"}
 var failFwd = []string{"noendpoint", "noupstream", "noupstream-remote", "dialerr", "deadnode", "closebefore", "closemid-cl", "closemid-chunked", "slow", "slow-upgrade", "fast"}
+
+var failAgent = []string{"closebefore", "closemid-cl", "closemid-chunked", "slow", "slow-upgrade", "slow-upgrade-case", "fast"}
 
 // Gen: 80% transparency cases (no proxy timeout in the way: 30 s), 20% failure-matrix cases on
 // a stack whose proxy timeout is 300 ms (slow upstreams answer after 600/900 ms, never within
